@@ -1,28 +1,50 @@
 (* Signing.v — issuing and verifying UCAN tokens (ucan/lib.go Issue / VerifySignature,
-   ucan/formatter) over the token layout of Formats.v, with symbolic signatures. *)
-From Ucanto Require Import Base Ipld Cbor Formats.
+   ucan/formatter) over the token layout of Formats.v.
+   The signed message is modelled BYTE FOR BYTE (DagJson.v): base64url(dag-json(header)) "."
+   base64url(dag-json(payload)), with the DID and CID string forms; only the signature
+   primitive itself is symbolic (Section hypotheses valid_sign / valid_unique). *)
+From Ucanto Require Import Base Varint VarintMore Ipld Cbor Formats BaseEnc JsonText Sig Did DagJson.
 Open Scope N_scope.
 
-(* the JWT-style payload that is signed: iss/aud as DID strings, prf as CID strings *)
-Definition payload_ipld (did_string cid_string : bstr -> bstr) (t : utoken) (with_nnc_nbf : bool) : ipld :=
+(* the JWT-style payload that is signed (ucan/datamodel/payload): iss/aud as DID strings,
+   prf as CID strings; bindnode hands the fields over in schema order, the dag-json encoder
+   sorts them *)
+Definition prf_list (t : utoken) : list bstr := match u_prf t with Some l => l | None => [] end.
+
+Definition payload_ipld (t : utoken) (with_nnc_nbf : bool) : ipld :=
   struct_map [
     field k_iss (IString (did_string (u_iss t)));
     field k_aud (IString (did_string (u_aud t)));
     field k_att (IList (map cap_ipld (u_att t)));
-    field k_prf (IList (map (fun c => IString (cid_string c)) (match u_prf t with Some l => l | None => [] end)));
+    field k_prf (IList (map (fun c => IString (cid_string c)) (prf_list t)));
     field k_exp (nullable (option_map IInt (u_exp t)));
     opt_field k_fct (option_map (fun l => IList (map IMap l)) (u_fct t));
     opt_field k_nnc (if with_nnc_nbf then option_map IString (u_nnc t) else None);
     opt_field k_nbf (if with_nnc_nbf then option_map IInt (u_nbf t) else None) ].
 
+Definition k_alg := bs "alg". Definition k_ucv := bs "ucv". Definition k_typ := bs "typ".
+
 Definition header_ipld (alg ver : bstr) : ipld :=
-  struct_map [field (bs "alg") (IString alg); field (bs "ucv") (IString ver); field (bs "typ") (IString (bs "JWT"))].
+  struct_map [field k_alg (IString alg); field k_ucv (IString ver); field k_typ (IString (bs "JWT"))].
+
+(* formatter.FormatSignPayload: the exact bytes handed to Sign / Verify *)
+Definition sign_bytes (alg ver : bstr) (payload : ipld) : bstr :=
+  b64url (json_encode (header_ipld alg ver)) ++ 46 :: b64url (json_encode payload).
+Definition sign_payload_of (alg : bstr) (t : utoken) (full : bool) : bstr :=
+  sign_bytes alg (u_v t) (payload_ipld t full).
+Definition sign_payload (alg : bstr) (t : utoken) : bstr := sign_payload_of alg t true.
+
+(* the formatter succeeds (no caveat / fact integer outside int64) *)
+Definition sign_payload_ok (t : utoken) : bool := json_encodable (payload_ipld t true).
+Definition sign_payload_opt (alg : bstr) (t : utoken) : option bstr :=
+  let p := payload_ipld t true in
+  if json_encodable p then Some (sign_bytes alg (u_v t) p) else None.
+
+Lemma sign_payload_opt_eq alg t :
+  sign_payload_opt alg t = if sign_payload_ok t then Some (sign_payload alg t) else None.
+Proof. reflexivity. Qed.
 
 Section Sign.
-  (* external encodings: oracles, exercised by the correspondence, not verified *)
-  Variable did_string : bstr -> bstr.      (* did.Decode(bytes).String(); "" when undecodable *)
-  Variable cid_string : bstr -> bstr.      (* link.String() *)
-  Variable json : ipld -> bstr.            (* dag-json of header / payload (then base64url, joined by '.') *)
   (* symbolic crypto: key ids, signing is deterministic *)
   Variable sign : N -> bstr -> bstr.       (* key, message -> signature bytes (framed) *)
   Variable valid : N -> bstr -> bstr -> bool.   (* verifier of key accepts (message, signature) *)
@@ -32,76 +54,62 @@ Section Sign.
   Hypothesis valid_sign : forall k m, valid k m (sign k m) = true.
   (* a signature validates at most one message under a key (unforgeability + determinism) *)
   Hypothesis valid_unique : forall k m m' s, valid k m s = true -> valid k m' s = true -> m = m'.
-  (* the two halves of the signed string determine header and payload values *)
-  Hypothesis json_inj : forall a b, wf_ipld a = true -> wf_ipld b = true -> json a = json b -> canon a = canon b.
-  Hypothesis json_canon : forall a, json (canon a) = json a.
-  Hypothesis cid_string_inj : forall a b, cid_string a = cid_string b -> a = b.
-  (* DID strings: distinct decodable DIDs print differently (C14_did_string_injective) *)
-  Hypothesis did_string_inj : forall a b, did_string a <> [] -> did_string a = did_string b -> a = b.
-  Hypothesis did_of_defined : forall k, did_string (did_of k) <> [].
-
-  (* the message handed to Sign / Verify: (header json, payload json) *)
-  Definition sign_input (alg : bstr) (t : utoken) (full : bool) : bstr * bstr :=
-    (json (header_ipld alg (u_v t)), json (payload_ipld did_string cid_string t full)).
-  (* abstract joining of the two base64url halves with '.', injective *)
-  Variable join : bstr * bstr -> bstr.
-  Hypothesis join_inj : forall a b, join a = join b -> a = b.
 
   (* ucan.Issue: build the token, sign the payload that includes nnc / nbf when set *)
   Definition issue (k : N) (ver aud : bstr) (att : list capm) (prf : option (list bstr)) (exp : option Z)
              (fct : option (list (list (bstr * ipld)))) (nnc : option bstr) (nbf : option Z) : utoken :=
     let t0 := mkU ver (did_of k) aud [] att prf exp fct nnc nbf in
-    mkU ver (did_of k) aud (sign k (join (sign_input (alg_of k) t0 true))) att prf exp fct nnc nbf.
+    mkU ver (did_of k) aud (sign k (sign_payload_of (alg_of k) t0 true)) att prf exp fct nnc nbf.
 
   (* ucan.VerifySignature(view, verifier of key k): rebuild the payload from the token *)
   Definition verify (t : utoken) (k : N) : bool :=
-    beq (u_iss t) (did_of k) && valid k (join (sign_input (alg_of k) t true)) (u_s t).
+    beq (u_iss t) (did_of k) && valid k (sign_payload_of (alg_of k) t true) (u_s t).
 
   (* the pinned VerifySignature rebuilt the payload WITHOUT nnc and nbf *)
   Definition verify_pinned (t : utoken) (k : N) : bool :=
-    beq (u_iss t) (did_of k) && valid k (join (sign_input (alg_of k) t false)) (u_s t).
+    beq (u_iss t) (did_of k) && valid k (sign_payload_of (alg_of k) t false) (u_s t).
 
-  Lemma sign_input_ignores_sig alg t s full :
-    sign_input alg (mkU (u_v t) (u_iss t) (u_aud t) s (u_att t) (u_prf t) (u_exp t) (u_fct t) (u_nnc t) (u_nbf t)) full
-    = sign_input alg t full.
-  Proof. reflexivity. Qed.
+  Lemma sign_payload_ignores_sig alg t s full :
+    sign_payload_of alg (mkU (u_v t) (u_iss t) (u_aud t) s (u_att t) (u_prf t) (u_exp t) (u_fct t) (u_nnc t) (u_nbf t)) full
+    = sign_payload_of alg t full.
+  Proof using. reflexivity. Qed.
 
   (* every issued token verifies against its issuer — for every option combination *)
   Theorem issue_verifies k ver aud att prf exp fct nnc nbf :
     verify (issue k ver aud att prf exp fct nnc nbf) k = true.
-  Proof.
+  Proof using valid_sign.
     unfold verify, issue. cbn [u_iss u_s]. rewrite beq_refl. cbn [andb].
-    unfold sign_input. cbn [u_v u_iss u_aud u_att u_prf u_exp u_fct u_nnc u_nbf]. apply valid_sign.
+    unfold sign_payload_of, sign_bytes, payload_ipld, prf_list. cbn [u_v u_iss u_aud u_att u_prf u_exp u_fct u_nnc u_nbf]. apply valid_sign.
   Qed.
 
   (* transport: the decoded token (caveats / facts in canonical form) still verifies *)
   Lemma cap_canon c : canon (cap_ipld (canon_cap c)) = canon (cap_ipld c).
-  Proof.
+  Proof using.
     unfold cap_ipld, canon_cap, struct_map. cbn [cm_with cm_can cm_nb concat field app].
     rewrite !canon_map_eq. cbn [map]. unfold on_snd. cbn [fst snd]. rewrite canon_idem. reflexivity.
   Qed.
 
   Lemma fact_canon f : canon (IMap (canon_fact f)) = canon (IMap f).
-  Proof.
+  Proof using.
     unfold canon_fact. rewrite (canon_map_eq f).
     change (IMap (sort_map (map (on_snd canon) f))) with (canon (IMap f)). apply canon_idem.
   Qed.
 
   Lemma caps_canon l : canon (IList (map cap_ipld (map canon_cap l))) = canon (IList (map cap_ipld l)).
-  Proof.
+  Proof using.
     cbn [canon]. f_equal. rewrite !map_map. apply map_ext. intros c. apply cap_canon.
   Qed.
 
   Lemma facts_canon l : canon (IList (map IMap (map canon_fact l))) = canon (IList (map IMap l)).
-  Proof.
+  Proof using.
     cbn [canon]. f_equal. rewrite !map_map. apply map_ext. intros f.
     pose proof (fact_canon f) as H. exact H.
   Qed.
 
   Lemma payload_canon t full :
-    canon (payload_ipld did_string cid_string (canon_token t) full) = canon (payload_ipld did_string cid_string t full).
-  Proof.
-    unfold payload_ipld, canon_token, struct_map.
+    canon (payload_ipld (canon_token t) full) = canon (payload_ipld t full).
+  Proof using.
+    unfold payload_ipld, canon_token, struct_map, prf_list.
     cbn [u_iss u_aud u_att u_prf u_exp u_fct u_nnc u_nbf].
     rewrite !canon_map_eq. f_equal. f_equal.
     pose proof (caps_canon (u_att t)) as CA.
@@ -111,86 +119,231 @@ Section Sign.
       rewrite ?CA, ?FA; reflexivity.
   Qed.
 
-  Theorem verify_after_transport t k :
-    verify t k = true -> verify (canon_token t) k = true.
-  Proof.
-    unfold verify. cbn [canon_token u_iss u_s]. intros H. rewrite andb_true_iff in *. destruct H as [H1 H2].
-    split; [exact H1|]. unfold sign_input in *. cbn [canon_token u_v].
-    rewrite <- (json_canon (payload_ipld did_string cid_string (canon_token t) true)).
-    rewrite payload_canon. rewrite json_canon. exact H2.
+  (* the signed bytes do not depend on the order of the entries of caveat / fact maps *)
+  Lemma sign_payload_canon alg t full : sign_payload_of alg (canon_token t) full = sign_payload_of alg t full.
+  Proof using.
+    unfold sign_payload_of, sign_bytes. cbn [canon_token u_v]. do 3 f_equal.
+    rewrite <- (json_encode_canon (payload_ipld (canon_token t) full)), payload_canon, json_encode_canon. reflexivity.
   Qed.
 
-  (* tamper detection: a token that verifies for key k carries exactly the signed payload *)
-  Theorem verify_binds_payload t t' k :
-    wf_ipld (payload_ipld did_string cid_string t true) = true ->
-    wf_ipld (payload_ipld did_string cid_string t' true) = true ->
-    wf_ipld (header_ipld (alg_of k) (u_v t)) = true -> wf_ipld (header_ipld (alg_of k) (u_v t')) = true ->
-    verify t k = true -> verify t' k = true -> u_s t' = u_s t ->
-    u_iss t' = u_iss t /\
-    canon (payload_ipld did_string cid_string t' true) = canon (payload_ipld did_string cid_string t true) /\
-    canon (header_ipld (alg_of k) (u_v t')) = canon (header_ipld (alg_of k) (u_v t)).
-  Proof.
-    intros W W' WH WH' V V' S. unfold verify in *. rewrite andb_true_iff in *.
-    destruct V as [I Vs]. destruct V' as [I' Vs']. apply beq_eq in I. apply beq_eq in I'.
-    split; [congruence|]. rewrite S in Vs'.
-    pose proof (valid_unique _ _ _ _ Vs Vs') as E. apply join_inj in E. unfold sign_input in E.
-    inversion E as [[E1 E2]]. split; symmetry; apply json_inj; auto.
+  Theorem verify_after_transport t k :
+    verify t k = true -> verify (canon_token t) k = true.
+  Proof using.
+    unfold verify. rewrite sign_payload_canon. cbn [canon_token u_iss u_s]. auto.
   Qed.
 
   (* verification against any other principal fails *)
   Theorem verify_other_principal t k k' :
     verify t k = true -> did_of k' <> did_of k -> verify t k' = false.
-  Proof.
+  Proof using.
     unfold verify. intros H NE. rewrite andb_true_iff in H. destruct H as [I _]. apply beq_eq in I.
     destruct (beq (u_iss t) (did_of k')) eqn:E; [|reflexivity]. apply beq_eq in E. congruence.
   Qed.
 End Sign.
 
-(* the payload determines every signed field *)
-Section PayloadInj.
-  Variable did_string cid_string : bstr -> bstr.
-  Hypothesis cid_string_inj : forall a b, cid_string a = cid_string b -> a = b.
+(* ------------------------------------------------------------------ *)
+(* the signed bytes determine every signed field                        *)
 
-  Lemma map_inj {A B} (f : A -> B) : (forall a b, f a = f b -> a = b) -> forall l l', map f l = map f l' -> l = l'.
-  Proof.
-    intros Hf l. induction l as [|x l IH]; destruct l' as [|y l']; cbn; try discriminate; [reflexivity|].
-    intros E. inversion E. f_equal; auto.
+Lemma dot_split a b x y : ~ In 46 a -> ~ In 46 b -> a ++ 46 :: x = b ++ 46 :: y -> a = b /\ x = y.
+Proof.
+  revert b. induction a as [|c a IH]; intros [|d b] Na Nb E; cbn [app] in E.
+  - inversion E. auto.
+  - inversion E; subst. exfalso. apply Nb. left. reflexivity.
+  - inversion E; subst. exfalso. apply Na. left. reflexivity.
+  - inversion E; subst. destruct (IH b) as [-> ->]; auto; intros I; [apply Na | apply Nb]; right; exact I.
+Qed.
+
+Lemma b64url_no_dot s : ~ In 46 (b64url s).
+Proof.
+  intros I. pose proof (b64url_chars s) as F. rewrite Forall_forall in F. specialize (F 46 I).
+  vm_compute in F. repeat (destruct F as [F|F]; [discriminate F|]). exact F.
+Qed.
+
+Theorem sign_payload_halves alg alg' t t' full full' :
+  json_safe (header_ipld alg (u_v t)) = true -> json_safe (header_ipld alg' (u_v t')) = true ->
+  json_safe (payload_ipld t full) = true -> json_safe (payload_ipld t' full') = true ->
+  sign_payload_of alg t full = sign_payload_of alg' t' full' ->
+  json_encode (header_ipld alg (u_v t)) = json_encode (header_ipld alg' (u_v t')) /\
+  json_encode (payload_ipld t full) = json_encode (payload_ipld t' full').
+Proof.
+  intros Sh Sh' Sp Sp' E. unfold sign_payload_of, sign_bytes in E.
+  apply dot_split in E; try apply b64url_no_dot. destruct E as [E1 E2].
+  split; apply b64url_inj; auto; apply jprint_bytes, jok_to_json; assumption.
+Qed.
+
+(* reading the payload back from its canonical form *)
+Definition payload_read (v : ipld) :=
+  iss <- (x <- map_get k_iss v ;; as_string x) ;;
+  aud <- (x <- map_get k_aud v ;; as_string x) ;;
+  att <- (x <- map_get k_att v ;; l <- as_list x ;; omap cap_of_ipld l) ;;
+  prf <- (x <- map_get k_prf v ;; l <- as_list x ;; omap as_string l) ;;
+  exp <- (x <- map_get k_exp v ;; if is_null x then Some None else (z <- as_int x ;; Some (Some z))) ;;
+  fct <- opt_get k_fct v (fun x => l <- as_list x ;; omap as_map l) ;;
+  nnc <- opt_get k_nnc v as_string ;;
+  nbf <- opt_get k_nbf v as_int ;;
+  Some (iss, aud, att, prf, exp, fct, nnc, nbf).
+
+Lemma payload_fields_nodup t full : match payload_ipld t full with IMap m => NoDup (map fst m) | _ => False end.
+Proof.
+  unfold payload_ipld, struct_map.
+  destruct (u_fct t), (u_nnc t), (u_nbf t), full; cbn;
+    repeat constructor; cbn; intuition discriminate.
+Qed.
+
+Theorem payload_read_canon t :
+  payload_read (canon (payload_ipld t true)) =
+  Some (did_string (u_iss t), did_string (u_aud t), map canon_cap (u_att t), map cid_string (prf_list t),
+        u_exp t, option_map (map canon_fact) (u_fct t), u_nnc t, u_nbf t).
+Proof.
+  pose proof (payload_fields_nodup t true) as ND.
+  unfold payload_read. unfold payload_ipld, struct_map in *.
+  set (m := concat _) in *.
+  unfold opt_get. rewrite !(map_get_canon_top _ _ ND).
+  assert (ATT : omap cap_of_ipld (map canon (map cap_ipld (u_att t))) = Some (map canon_cap (u_att t))).
+  { rewrite map_map. rewrite omap_map. apply omap_some. intros c _. apply cap_roundtrip. }
+  assert (FCT : forall l, omap as_map (map canon (map IMap l)) = Some (map canon_fact l)).
+  { intros l. rewrite map_map, omap_map. apply omap_some. intros f _. unfold canon_fact.
+    rewrite canon_map_eq. reflexivity. }
+  assert (PRF : forall l, omap as_string (map canon (map (fun c => IString (cid_string c)) l)) = Some (map cid_string l)).
+  { intros l. rewrite map_map, omap_map. apply omap_some. intros; reflexivity. }
+  subst m.
+  destruct t as [ver iss aud s att prf exp fct nnc nbf]. unfold prf_list in *.
+  cbn [u_v u_iss u_aud u_s u_att u_prf u_exp u_fct u_nnc u_nbf] in *.
+  destruct exp as [exp|], fct as [fct|], nnc as [nnc|], nbf as [nbf|];
+    cbn [option_map opt_field field concat app slookup beq N.eqb Pos.eqb andb k_iss k_aud k_att k_prf k_exp k_fct k_nnc k_nbf bs N_of_ascii N_of_digits nullable];
+    cbn; rewrite ?ATT, ?FCT, ?PRF; cbn; reflexivity.
+Qed.
+
+Lemma header_canon_inj alg ver alg' ver' :
+  canon (header_ipld alg ver) = canon (header_ipld alg' ver') -> alg = alg' /\ ver = ver'.
+Proof.
+  intros E. unfold header_ipld, struct_map in E. cbn [concat field app] in E.
+  assert (ND : forall a v, NoDup (map fst [(k_alg, IString a); (k_ucv, IString v); (k_typ, IString (bs "JWT"))])).
+  { intros. cbn. repeat constructor; cbn; intuition discriminate. }
+  pose proof (f_equal (map_get k_alg) E) as Ea. pose proof (f_equal (map_get k_ucv) E) as Ev.
+  rewrite !(map_get_canon_top _ _ (ND _ _)) in Ea. rewrite !(map_get_canon_top _ _ (ND _ _)) in Ev.
+  cbn in Ea, Ev. inversion Ea. inversion Ev. auto.
+Qed.
+
+Lemma map_inj_on {A B} (P : A -> Prop) (f : A -> B) :
+  (forall a b, P a -> P b -> f a = f b -> a = b) ->
+  forall l l', Forall P l -> Forall P l' -> map f l = map f l' -> l = l'.
+Proof.
+  intros Hf l. induction l as [|x l IH]; intros [|y l'] Hl Hl' E; cbn in E; try discriminate; [reflexivity|].
+  inversion E. inversion Hl; inversion Hl'; subst. f_equal; auto.
+Qed.
+
+(* the identifiers of a token are byte strings, its principals decodable DIDs *)
+Definition token_ids_ok (t : utoken) : bool :=
+  bytes_okb (u_iss t) && did_okb (u_iss t) && bytes_okb (u_aud t) && did_okb (u_aud t) && forallb bytes_okb (prf_list t).
+
+(* equal signed bytes: same algorithm, version, and payload fields as strings *)
+Theorem sign_payload_fields alg alg' t t' :
+  json_safe (header_ipld alg (u_v t)) = true -> json_safe (header_ipld alg' (u_v t')) = true ->
+  wf_ipld (header_ipld alg (u_v t)) = true -> wf_ipld (header_ipld alg' (u_v t')) = true ->
+  json_safe (payload_ipld t true) = true -> json_safe (payload_ipld t' true) = true ->
+  wf_ipld (payload_ipld t true) = true -> wf_ipld (payload_ipld t' true) = true ->
+  sign_payload alg t = sign_payload alg' t' ->
+  alg = alg' /\ u_v t = u_v t' /\
+  did_string (u_iss t) = did_string (u_iss t') /\ did_string (u_aud t) = did_string (u_aud t') /\
+  map canon_cap (u_att t) = map canon_cap (u_att t') /\
+  map cid_string (prf_list t) = map cid_string (prf_list t') /\
+  u_exp t = u_exp t' /\ option_map (map canon_fact) (u_fct t) = option_map (map canon_fact) (u_fct t') /\
+  u_nnc t = u_nnc t' /\ u_nbf t = u_nbf t'.
+Proof.
+  intros Sh Sh' Wh Wh' Sp Sp' Wp Wp' E.
+  destruct (sign_payload_halves _ _ _ _ _ _ Sh Sh' Sp Sp' E) as [Eh Ep].
+  apply json_encode_inj in Eh; auto. apply json_encode_inj in Ep; auto.
+  apply header_canon_inj in Eh. destruct Eh as [-> Ev].
+  pose proof (payload_read_canon t) as R. pose proof (payload_read_canon t') as R'. rewrite Ep in R. rewrite R' in R.
+  inversion R. repeat split; auto.
+Qed.
+
+(* ... hence the same token, field by field (caveats and facts up to the order of map entries;
+   an absent proof list and an empty one are the same signed value) *)
+Theorem sign_payload_inj alg alg' t t' :
+  json_safe (header_ipld alg (u_v t)) = true -> json_safe (header_ipld alg' (u_v t')) = true ->
+  wf_ipld (header_ipld alg (u_v t)) = true -> wf_ipld (header_ipld alg' (u_v t')) = true ->
+  json_safe (payload_ipld t true) = true -> json_safe (payload_ipld t' true) = true ->
+  wf_ipld (payload_ipld t true) = true -> wf_ipld (payload_ipld t' true) = true ->
+  token_ids_ok t = true -> token_ids_ok t' = true ->
+  sign_payload alg t = sign_payload alg' t' ->
+  alg = alg' /\ u_v t = u_v t' /\ u_iss t = u_iss t' /\ u_aud t = u_aud t' /\
+  map canon_cap (u_att t) = map canon_cap (u_att t') /\ prf_list t = prf_list t' /\
+  u_exp t = u_exp t' /\ option_map (map canon_fact) (u_fct t) = option_map (map canon_fact) (u_fct t') /\
+  u_nnc t = u_nnc t' /\ u_nbf t = u_nbf t'.
+Proof.
+  intros Sh Sh' Wh Wh' Sp Sp' Wp Wp' I I' E.
+  destruct (sign_payload_fields _ _ _ _ Sh Sh' Wh Wh' Sp Sp' Wp Wp' E) as [Ea [Ev [Ei [Eu [Ec [Epr [Ee [Ef [En Eb]]]]]]]]].
+  unfold token_ids_ok in I, I'. rewrite !andb_true_iff in I, I'.
+  destruct I as [[[[Bi Di] Ba] Da] Bp]. destruct I' as [[[[Bi' Di'] Ba'] Da'] Bp'].
+  apply bytes_okb_ok in Bi, Bi', Ba, Ba'.
+  repeat split; auto.
+  - apply did_string_inj; auto.
+  - apply did_string_inj; auto.
+  - apply (map_inj_on bytes_lt cid_string cid_string_inj); auto;
+      apply Forall_forall; intros c Hc; [rewrite forallb_forall in Bp; specialize (Bp c Hc) | rewrite forallb_forall in Bp'; specialize (Bp' c Hc)];
+      apply bytes_okb_ok; assumption.
+Qed.
+
+(* tamper detection: two tokens that verify for key k with the same signature bytes carry the
+   same signed bytes *)
+Section Tamper.
+  Variable valid : N -> bstr -> bstr -> bool.
+  Variable alg_of did_of : N -> bstr.
+  Hypothesis valid_unique : forall k m m' s, valid k m s = true -> valid k m' s = true -> m = m'.
+
+  Lemma verify_same_bytes t t' k :
+    verify valid alg_of did_of t k = true -> verify valid alg_of did_of t' k = true -> u_s t' = u_s t ->
+    u_iss t' = u_iss t /\ sign_payload (alg_of k) t' = sign_payload (alg_of k) t.
+  Proof using valid_unique.
+    intros V V' S. unfold verify in *. rewrite andb_true_iff in *.
+    destruct V as [I Vs]. destruct V' as [I' Vs']. apply beq_eq in I. apply beq_eq in I'.
+    split; [congruence|]. rewrite S in Vs'. symmetry. exact (valid_unique _ _ _ _ Vs Vs').
   Qed.
 
-  Lemma opt3_inj (a a' b b' c c' : option ipld) :
-    opt_field k_fct a ++ opt_field k_nnc b ++ opt_field k_nbf c =
-    opt_field k_fct a' ++ opt_field k_nnc b' ++ opt_field k_nbf c' -> a = a' /\ b = b' /\ c = c'.
-  Proof.
-    destruct a, a', b, b', c, c'; cbn [opt_field app]; intros E; inversion E; subst; auto; discriminate.
+  Theorem verify_binds_payload t t' k :
+    json_safe (header_ipld (alg_of k) (u_v t)) = true -> json_safe (header_ipld (alg_of k) (u_v t')) = true ->
+    wf_ipld (header_ipld (alg_of k) (u_v t)) = true -> wf_ipld (header_ipld (alg_of k) (u_v t')) = true ->
+    json_safe (payload_ipld t true) = true -> json_safe (payload_ipld t' true) = true ->
+    wf_ipld (payload_ipld t true) = true -> wf_ipld (payload_ipld t' true) = true ->
+    token_ids_ok t = true -> token_ids_ok t' = true ->
+    verify valid alg_of did_of t k = true -> verify valid alg_of did_of t' k = true -> u_s t' = u_s t ->
+    u_v t' = u_v t /\ u_iss t' = u_iss t /\ u_aud t' = u_aud t /\
+    map canon_cap (u_att t') = map canon_cap (u_att t) /\ prf_list t' = prf_list t /\
+    u_exp t' = u_exp t /\ option_map (map canon_fact) (u_fct t') = option_map (map canon_fact) (u_fct t) /\
+    u_nnc t' = u_nnc t /\ u_nbf t' = u_nbf t.
+  Proof using valid_unique.
+    intros Sh Sh' Wh Wh' Sp Sp' Wp Wp' I I' V V' S.
+    destruct (verify_same_bytes t t' k V V' S) as [_ E].
+    destruct (sign_payload_inj _ _ _ _ Sh' Sh Wh' Wh Sp' Sp Wp' Wp I' I E) as [_ H]. exact H.
   Qed.
+End Tamper.
 
-  Lemma option_map_inj {A B} (f : A -> B) : (forall x y, f x = f y -> x = y) ->
-    forall a b, option_map f a = option_map f b -> a = b.
-  Proof. intros Hf [a|] [b|]; cbn; intros E; inversion E; auto. f_equal. auto. Qed.
+(* json_safe of the payload, in terms of the token *)
+Definition cap_safe (c : capm) : bool := utf8_valid (cm_with c) && utf8_valid (cm_can c) && json_safe (cm_nb c).
 
-  (* equal payloads (as built, before canonicalisation) => equal signed fields *)
-  Theorem payload_inj t t' :
-    payload_ipld did_string cid_string t true = payload_ipld did_string cid_string t' true ->
-    did_string (u_iss t) = did_string (u_iss t') /\ did_string (u_aud t) = did_string (u_aud t') /\
-    u_att t = u_att t' /\
-    match u_prf t with Some l => l | None => [] end = match u_prf t' with Some l => l | None => [] end /\
-    u_exp t = u_exp t' /\ u_fct t = u_fct t' /\ u_nnc t = u_nnc t' /\ u_nbf t = u_nbf t'.
-  Proof.
-    unfold payload_ipld, struct_map. intros E.
-    assert (CAPS : forall l l', map cap_ipld l = map cap_ipld l' -> l = l').
-    { apply map_inj. intros [w c n] [w' c' n'] X. unfold cap_ipld, struct_map in X. cbn in X. inversion X. reflexivity. }
-    assert (PRF : forall l l', map (fun c => IString (cid_string c)) l = map (fun c => IString (cid_string c)) l' -> l = l').
-    { apply map_inj. intros a b X. inversion X. auto. }
-    assert (FCT : forall l l' : list (list (bstr * ipld)), map IMap l = map IMap l' -> l = l').
-    { apply map_inj. intros a b X. inversion X. reflexivity. }
-    inversion E.
-    match goal with H : opt_field k_fct _ ++ _ = _ |- _ =>
-      rewrite ?app_nil_r in H; apply opt3_inj in H; destruct H as [Ef [En Eb]] end.
-    match goal with H : nullable _ = nullable _ |- _ => rename H into Eexp end.
-    repeat split; auto.
-    - destruct (u_exp t), (u_exp t'); cbn in Eexp; inversion Eexp; reflexivity.
-    - apply (option_map_inj (fun l => IList (map IMap l))); [|exact Ef]. intros x y X. inversion X. auto.
-    - apply (option_map_inj IString); [|exact En]. intros x y X. inversion X. reflexivity.
-    - apply (option_map_inj IInt); [|exact Eb]. intros x y X. inversion X. reflexivity.
-  Qed.
-End PayloadInj.
+Definition token_json_safe (t : utoken) : bool :=
+  utf8_valid (did_string (u_iss t)) && utf8_valid (did_string (u_aud t)) &&
+  forallb cap_safe (u_att t) &&
+  match u_fct t with Some l => forallb (fun f => json_safe (IMap f)) l | None => true end &&
+  match u_nnc t with Some s => utf8_valid s | None => true end.
+
+Lemma payload_safe_of_token t : token_json_safe t = true -> json_safe (payload_ipld t true) = true.
+Proof.
+  unfold token_json_safe. rewrite !andb_true_iff. intros [[[[Hi Ha] Hc] Hf] Hn].
+  assert (CAPS : forallb json_safe (map cap_ipld (u_att t)) = true).
+  { rewrite forallb_forall in *. intros v Hv. apply in_map_iff in Hv. destruct Hv as [c [<- Hc']]. specialize (Hc c Hc').
+    unfold cap_safe in Hc. rewrite !andb_true_iff in Hc. destruct Hc as [[H1 H2] H3].
+    unfold cap_ipld, struct_map. cbn [concat field app json_safe slash_shape negb andb forallb fst snd].
+    rewrite H1, H2, H3. reflexivity. }
+  assert (PRF : forallb json_safe (map (fun c => IString (cid_string c)) (prf_list t)) = true).
+  { rewrite forallb_forall. intros v Hv. apply in_map_iff in Hv. destruct Hv as [c [<- _]]. cbn [json_safe]. apply cid_string_valid. }
+  assert (EXP : json_safe (nullable (option_map IInt (u_exp t))) = true) by (destruct (u_exp t); reflexivity).
+  assert (FCT : forall l, forallb (fun f => json_safe (IMap f)) l = true -> forallb json_safe (map IMap l) = true).
+  { intros l H. rewrite forallb_forall in *. intros v Hv. apply in_map_iff in Hv. destruct Hv as [f [<- Hf']]. auto. }
+  unfold payload_ipld, struct_map.
+  destruct (u_fct t) as [fl|]; [specialize (FCT fl Hf)|]; destruct (u_nnc t), (u_nbf t);
+    cbn [option_map opt_field field concat app json_safe slash_shape negb andb forallb fst snd];
+    rewrite ?Hi, ?Ha, ?CAPS, ?PRF, ?EXP, ?FCT, ?Hn; reflexivity.
+Qed.
